@@ -49,7 +49,7 @@ ASSUMPTIONS = [
     "window_toggle: completion of the openings ends the outer sequence only (pinned by test_window_toggle_basic); what happens after the source's completion is not judged except that windows open at that instant must end there (property text)",
     "closing / duration / boundary / openings observables never error (not part of the property statement)",
     "buffer_with_count drops empty buffers (its implementation filters them), so empty lists are ignored on both sides for the count form only",
-    "disposing a scheduled timer is best effort (documented on every schedule_* method): with the case flag nocancel the operator's timers run even after it cancelled them, and the window rule is still required to hold",
+    "disposing a scheduled timer is best effort (documented on every schedule_* method): with the case flag nocancel a timer the operator cancels at its own due instant (it has fired and cannot be recalled) still runs, while one cancelled earlier is cancelled for good; the window rule is still required to hold",
     "cases reaching the lab's same-instant spin guard or the work budget are discarded as inconclusive",
 ]
 
@@ -129,9 +129,11 @@ def _closing_obs(lab, c):
 
 
 class _BestEffortCancel:
-    """The lab scheduler with *ineffective* cancellation of relative timers: scheduler docs promise cancellation only
-    as "best effort" (a real timer that already fired cannot be recalled), so a timer an operator has cancelled may
-    still run; the window rule must not depend on it.  Only the operator's own timers go through this wrapper."""
+    """The lab scheduler with *best effort* cancellation of relative timers, as every schedule_* docstring words it:
+    a real timer that has already fired (and is, say, waiting for the operator's lock) cannot be recalled.  A timer the
+    operator cancels *before* its due instant is cancelled for good, exactly as with a real timer; a timer cancelled
+    *at* its due instant (by another action of that same instant) still runs.  The window rule must not depend on
+    the latter being recalled.  Only the operator's own timers go through this wrapper."""
 
     def __init__(self, lab):
         self._lab = lab
@@ -143,17 +145,22 @@ class _BestEffortCancel:
     def schedule_relative(self, duetime, action, state=None):
         from reactivex.disposable import Disposable
 
+        sched = self._lab.sched
+        lab = self._lab
+        due = lab.now() + sched.to_seconds(duetime) / (lab.tick_s if lab.clock_kind == "hist" else 1)
         flag = {"cancelled": False}
 
-        def run(sched, st_=None):
+        def run(sched_, st_=None):
             if flag["cancelled"]:
                 self.fired_after_cancel += 1
-            return action(sched, st_)
+            return action(sched_, st_)
 
-        self._lab.sched.schedule_relative(duetime, run, state)
+        inner = sched.schedule_relative(duetime, run, state)
 
         def cancel():
             flag["cancelled"] = True
+            if lab.now() < due - 1e-9:
+                inner.dispose()
 
         return Disposable(cancel)
 
